@@ -503,6 +503,10 @@ func genC11(t *rapid.T) *c11Case {
 			h++
 			c.Targets = append(c.Targets, c11Target{Job: j.Name, Hash: h * 2654435761, Addr: fmt.Sprintf("10.1.%d.%d:9100", len(c.Targets), k),
 				HTTPS: rapid.Bool().Draw(t, fmt.Sprintf("https-%d", h)), Extra: rapid.SampledFrom([]string{"", "x", "a: b", "quo\"te"}).Draw(t, fmt.Sprintf("extra-%d", h))})
+			if rapid.IntRange(0, 5).Draw(t, fmt.Sprintf("oddAddr-%d", h)) == 0 {
+				// addresses discovery, Prometheus and Go's http client accept although "scheme://address" is no URL for url.Parse
+				c.Targets[len(c.Targets)-1].Addr = rapid.SampledFrom([]string{"[fe80::1%eth0]:9100", "[fe80::2%25eth0]:9100", "[::1]:9100"}).Draw(t, fmt.Sprintf("oddAddrV-%d", h))
+			}
 			if k > 0 && rapid.IntRange(0, 2).Draw(t, fmt.Sprintf("sameEndpoint-%d", h)) == 0 {
 				// behind the same exporter as the previous target of the job, told apart by a url parameter
 				cur, prev := &c.Targets[len(c.Targets)-1], c.Targets[len(c.Targets)-2]
